@@ -145,6 +145,9 @@ func (s *Solver) Solve(o *Oblig) *SolveResult {
 	q := o.queryOpt(true, o.Expect == "sat")
 	file := filepath.Join(s.dir, fmt.Sprintf("q%05d.smt2", id))
 	os.WriteFile(file, []byte(q), 0o644)
+	if d := os.Getenv("GOVC_DUMP"); d != "" && strings.Contains(o.Name, d) {
+		os.WriteFile("/var/tmp/govc-dump-"+sanitize(o.Name)+".smt2", []byte(q), 0o644)
+	}
 	res := &SolveResult{AllRaw: map[string]string{}, QuerySize: len(q)}
 	start := time.Now()
 	defer func() {
